@@ -26,6 +26,7 @@ type vinfo struct {
 }
 
 type oracle struct {
+	client    bool // the Deletes are issued by real client code (writers / hosts lines)
 	nk        int
 	held      [][]heldItem
 	vals      map[*val]*vinfo
@@ -255,6 +256,12 @@ func (o *oracle) deleteStarted(t, key int, tok string) {
 		}
 	}
 	if idx < 0 {
+		if o.client && o.tainted == "" {
+			// in a client line the Deletes are made by caddy's own glue, not by the test program
+			o.fail("client-releases-unheld-reference", fmt.Sprintf("client %d: its cleanup called Delete although it holds no reference any more (a reference of another client is released, or nothing)", t))
+			o.tainted = "client released a reference it does not hold"
+			return
+		}
 		if o.tainted == "" {
 			o.tainted = "Delete by a thread that holds nothing"
 			o.tags["rogue-delete"] = true
@@ -338,6 +345,12 @@ func (o *oracle) finish(end string, c *controller) {
 	case "ok":
 		for _, v := range o.order {
 			vi := o.vals[v]
+			if v.plain {
+				if vi.destructed != 0 {
+					o.fail("plain-value-destructed", fmt.Sprintf("value %d of key %d is not a Destructor but a destructor ran", v.id, vi.key))
+				}
+				continue
+			}
 			if vi.holders == 0 && vi.destructed != 1 {
 				o.fail("released-value-not-destructed", fmt.Sprintf("value %d of key %d: all holders released it, every call returned, destructor ran %d times", v.id, vi.key, vi.destructed))
 			}
